@@ -21,7 +21,9 @@ REPS = {
     "if_user.c": b"#if X\nint  x ;\n#else\nint y;\n#endif\nint z;\n",
     "qt_macro.cpp": b"void f() {\n  connect(a, SIGNAL(x(int)), b, SLOT(y(int)));\n}\n",
     "qt_word.cpp": b"int SIGNAL;\nint SLOT;\nvoid g(int a,int b);\n",
-    "own_header.cpp": b"#include \"zeta.h\"\n#include \"own_header.h\"\n#include \"plain.h\"\nvoid h(int a,int b);\n",
+    # two files with the same include lines: which one is "the file's own header" differs (mod_sort_incl_import_prioritize_filename)
+    "alpha.cpp": b"#include \"zeta.h\"\n#include \"beta.h\"\n#include \"alpha.h\"\nvoid h(int a,int b);\n",
+    "zeta.cpp": b"#include \"zeta.h\"\n#include \"beta.h\"\n#include \"alpha.h\"\nvoid k(int a,int b);\n",
     "crlf.c": b"int  a ;\r\nint   b;\r\n",
     "cr_only.c": b"int  a ;\rint   b;\r",
     "ends_in_cr.c": b"int a; /* c\r */\r",
